@@ -322,6 +322,35 @@ func runDecodex(ctx *core.Ctx, tier string) {
 	for _, r := range []string{`{}`, `"x"`, `0`, `true`, `{"op":"add","path":"/a","value":1}`, `[]`, ` [ ] `, ``, `[`, `[{"op":"add","path":"/a","value":1}`, `[{"op":"add","path":"/a","value":1}]x`} {
 		texts[r] = true
 	}
+	// SCALE: patches of 300 operations with one mutated operation at a chosen position; long path / from /
+	// value strings; operation objects with 40 unknown extra members
+	goodOp := func(i int) string { return fmt.Sprintf(`{"op":"add","path":"/m%03d","value":%d}`, i, i) }
+	for _, bad := range []string{`{"op":"add","path":"/x"}`, `{"op":"bogus","path":"/x"}`, `{"op":"move","path":"/x","from":null}`, `{"op":"test","path":7,"value":1}`, `7`, goodOp(999)} {
+		for _, pos := range []int{0, 1, 255, 256, 299} {
+			parts := make([]string, 300)
+			for i := range parts {
+				parts[i] = goodOp(i)
+			}
+			parts[pos] = bad
+			texts["["+strings.Join(parts, ",")+"]"] = true
+		}
+	}
+	for _, n := range []int{63, 64, 65, 1023, 1024, 4095, 4096, 4097} {
+		long := strings.Repeat("p~1q~0", n/6+1)[:n]
+		for len(long) > 0 && long[len(long)-1] == '~' {
+			long = long[:len(long)-1]
+		}
+		texts[`[{"op":"add","path":"/`+long+`","value":"`+long+`"}]`] = true
+		texts[`[{"op":"move","from":"/`+long+`","path":"/`+long+`x"}]`] = true
+		texts[`[{"op":"copy","from":"/`+long+`"}]`] = true
+		texts[`[{"op":"replace","path":"/a","value":[`+strings.Repeat("1,", n)+`1]}]`] = true
+	}
+	var extras strings.Builder
+	for i := 0; i < 40; i++ {
+		fmt.Fprintf(&extras, `"x%02d":{"op":"bogus"},`, i)
+	}
+	texts[`[{`+extras.String()+`"op":"remove","path":"/z"}]`] = true
+	texts[`[{`+extras.String()+`"op":"remove"}]`] = true
 	list := make([]string, 0, len(texts))
 	for t := range texts {
 		list = append(list, t)
